@@ -59,6 +59,15 @@ def handle (op : String) (args : List String) : Option String :=
     match Impl.unmarshal le b with
     | some c => pure ("ok " ++ showCC c)
     | none => pure "err"
+  -- what a client built from the file holds: one line item per SPN, sorted
+  | "cc.client", [le, b] => do
+    let le ← parseBool le; let b ← parseHex b
+    match Impl.unmarshal le b with
+    | none => pure "err"
+    | some c =>
+      let items := (Impl.clientCache c).map (fun e =>
+        s!"{showHex e.1}:{e.2.keyType}:{showHex e.2.key}:{e.2.authTime}:{e.2.startTime}:{e.2.endTime}:{e.2.renewTill}:{showHex e.2.ticket}")
+      pure ("ok " ++ " ".intercalate (items.toArray.qsort (· < ·)).toList)
   | _, _ => none
 
 end Driver.CCache
